@@ -24,7 +24,7 @@ export CARGO_NET_OFFLINE=true
 export CARGO_TARGET_DIR=$WORK/target
 export RUSTFLAGS="--cfg bigdecimal_verif"
 log=$WORK/fuzz-build-$target.log
-if ! (cd "$ROOT/ws/harness" && cargo +nightly fuzz build --fuzz-dir "$HERE" "$target" >"$log" 2>&1); then
+if ! (cd "$ROOT/ws/harness" && cargo +nightly fuzz build --sanitizer none --fuzz-dir "$HERE" "$target" >"$log" 2>&1); then
     echo "fuzz: build of $target failed; see $log" >&2
     tail -n 30 "$log" >&2
     exit 2
@@ -43,7 +43,7 @@ for j in $(seq 1 "$JOBS"); do
     dict=""
     [ -f "$HERE/seeds/$target.dict" ] && dict="-dict=$HERE/seeds/$target.dict"
     ( "$bin" "$cdir" -runs="$RUNS" -seed=$((SEED * 100 + j + 1)) -len_control=0 -max_len=$maxlen $dict \
-        -artifact_prefix="$adir" -print_final_stats=1 -max_total_time=${VERIF_FUZZ_SECONDS:-900} -timeout=120 -rss_limit_mb=4096 >"$WORK/fuzz-$target-$j.log" 2>&1 ) &
+        -artifact_prefix="$adir" -print_final_stats=1 -max_total_time=${VERIF_FUZZ_SECONDS:-900} -timeout=300 -rss_limit_mb=4096 >"$WORK/fuzz-$target-$j.log" 2>&1 ) &
     pids+=($!)
 done
 rc=0
@@ -71,7 +71,7 @@ python3 - "$out" "$prop" "$target" "$total" "$corpus" "$viol" "$((t1 - t0))" "$J
 import json, sys
 out, prop, target, total, corpus, viol, secs, jobs, runs, samples = sys.argv[1:11]
 stage = {
- "stage": f"fuzz:{target}", "kind": "bytes", "mode": "fuzz", "flavour": "fuzz(debug-assertions on)",
+ "stage": f"fuzz:{target}", "kind": "bytes", "mode": "fuzz", "flavour": "fuzz(debug-assertions on, no sanitizer)",
  "evaluations": int(total), "nontrivial": int(corpus), "distinct_nontrivial": int(corpus), "exhaustive": False,
  "inconclusive": 0, "known_finding_hits": 0, "labels": {}, "wall_s": float(secs),
  "samples": [{"corpus_input_hex": s} for s in json.loads(samples)],
